@@ -11,6 +11,28 @@ use json_shape::{IsSubset, JsonShape, Similar, error::Error};
 
 mod genops;
 
+/// Counting allocator: number of heap allocations (C12's operation count).
+struct Counting;
+static ALLOCS: std::sync::atomic::AtomicU64 = std::sync::atomic::AtomicU64::new(0);
+unsafe impl std::alloc::GlobalAlloc for Counting {
+    unsafe fn alloc(&self, l: std::alloc::Layout) -> *mut u8 {
+        ALLOCS.fetch_add(1, std::sync::atomic::Ordering::Relaxed);
+        unsafe { std::alloc::System.alloc(l) }
+    }
+    unsafe fn dealloc(&self, p: *mut u8, l: std::alloc::Layout) {
+        unsafe { std::alloc::System.dealloc(p, l) }
+    }
+    unsafe fn realloc(&self, p: *mut u8, l: std::alloc::Layout, n: usize) -> *mut u8 {
+        ALLOCS.fetch_add(1, std::sync::atomic::Ordering::Relaxed);
+        unsafe { std::alloc::System.realloc(p, l, n) }
+    }
+}
+#[global_allocator]
+static GLOBAL: Counting = Counting;
+fn allocs() -> u64 {
+    ALLOCS.load(std::sync::atomic::Ordering::Relaxed)
+}
+
 // ---------------------------------------------------------------- shapes: compact syntax
 pub fn hex(bytes: &[u8]) -> String {
     let mut s = String::with_capacity(bytes.len() * 2);
@@ -377,6 +399,42 @@ fn run(line: &str) -> String {
             Ok(s) => format!("OK {}", shape_str(&s)),
             Err(_) => "ERR De".into(),
         },
+        "allocs" => {
+            // allocs <what> args : heap allocations performed by the call alone
+            match a[1] {
+                "subset" => {
+                    let (x, y) = (parse_shape(a[2]), parse_shape(a[3]));
+                    let n0 = allocs();
+                    let _ = x.is_subset(&y);
+                    format!("ALLOC {}", allocs() - n0)
+                }
+                "merge" => {
+                    let v: Vec<JsonShape> = a[2..].iter().map(|s| parse_shape(s)).collect();
+                    let n0 = allocs();
+                    let _ = json_shape::verif_hooks::merge(&v);
+                    format!("ALLOC {}", allocs() - n0)
+                }
+                "from_str" => {
+                    let t = doc_text(a[2]);
+                    let n0 = allocs();
+                    let _ = JsonShape::from_str(&t);
+                    format!("ALLOC {}", allocs() - n0)
+                }
+                "from_value" => {
+                    let v: serde_json::Value = serde_json::from_str(&doc_text(a[2])).unwrap();
+                    let n0 = allocs();
+                    let _ = JsonShape::from(&v);
+                    format!("ALLOC {}", allocs() - n0)
+                }
+                "from_sources" => {
+                    let v: Vec<String> = a[2..].iter().map(|s| doc_text(s)).collect();
+                    let n0 = allocs();
+                    let _ = JsonShape::from_sources(&v);
+                    format!("ALLOC {}", allocs() - n0)
+                }
+                _ => "ERR BadOp".into(),
+            }
+        }
         "counts" => {
             // counts <what> args : call counters (value, text, merger, subset)
             json_shape::verif_hooks::reset_counters();
